@@ -138,7 +138,8 @@ def classify(ctx: Ctx, spec: dict):
     for f in ctx.failures:
         if f["clause"] not in clauses or f.get("tainted"):
             continue
-        if "backends" in spec and f["backend"] not in spec["backends"] and f["backend"] != "both":
+        if "backends" in spec and f["backend"] not in spec["backends"] and f["backend"] != "both" \
+                and f["clause"] != "polars-subquery":
             continue
         last, hist = F.behaviour_tags(f, f.get("heap_obs", []))
         sig = F.signature(ctx.prop, f, last, hist)
@@ -211,8 +212,11 @@ def run_check(prop: str, tier: str, seed: int) -> int:
             if d:
                 tlc.cleanup(d)
     viol, known = classify(ctx, spec)
+    kagg = {}
     for k in known:
-        print(f"KNOWN-FINDING: property={prop} {k['known']['id']}: {k['known']['description']} ({k['count']} occurrence(s))")
+        kagg.setdefault(k["known"]["id"], [k["known"], 0])[1] += k["count"]
+    for kid, (entry, n) in sorted(kagg.items()):
+        print(f"KNOWN-FINDING: property={prop} {kid}: {entry['description']} ({n} occurrence(s))")
     if os.path.isdir(REPLAYS):
         for fn in os.listdir(REPLAYS):
             if fn.startswith(prop + "-"):
